@@ -132,6 +132,7 @@ def transcript_of(data: dict, world: dict) -> dict:
     for rec in sdata["ops"]:
         if noise is not None:
             _discarded_calls(S, noise, notes)
+            _early_attempts(S, noise, rec)
         n0 = len(S.log.events)
         S.apply(rec)
         for ev in S.log.events[n0:]:
@@ -184,6 +185,31 @@ def _discarded_calls(S, r, notes):
             getattr(AS, name)(S.procs[pid], *[list(a) if isinstance(a, list) else a for a in args], **pr[1])
         except Exception:
             pass
+
+
+def _early_attempts(S, r, rec):
+    """Noise, second kind: the script's next operation is first attempted on the ANCESTORS of its
+    target, at the same location (the user tried it one or two steps too early, where it is usually
+    rejected), and the result is thrown away."""
+    import copy
+
+    import exo.API_scheduling as AS
+
+    if rec.get("op") in ("compile", "query") or r.random() < 0.4:
+        return
+    pid = rec.get("on")
+    anc = S.parent.get(pid)
+    for _ in range(2):
+        if anc is None or anc not in S.procs:
+            return
+        try:
+            spec = json.loads(json.dumps(rec["args"]).replace(f'"p": "{pid}"', f'"p": "{anc}"'))
+            args = S.mat(spec)
+            getattr(AS, rec["op"])(S.procs[anc], *[list(a) if isinstance(a, list) else a for a in args], **(rec.get("kw") or {}))
+        except BaseException as e:  # noqa: BLE001 - discarded
+            if isinstance(e, (KeyboardInterrupt, SystemExit)):
+                raise
+        anc = S.parent.get(anc)
 
 
 def record_session(seed: int, cfg: dict) -> dict:
